@@ -590,6 +590,7 @@ func (r *Run) Close(n int) <-chan struct{} {
 	decs := append([]message.Subscriber(nil), r.decorated...)
 	r.mu.Unlock()
 	var wg sync.WaitGroup
+	var ready atomic.Int32
 	for i := 0; i < n; i++ {
 		wg.Add(1)
 		go func(i int) {
@@ -600,6 +601,13 @@ func (r *Run) Close(n int) <-chan struct{} {
 						r.panicked("Close", v)
 					}
 				}()
+				// the callers start together (spin gate, bounded): check-then-act slips in Close need calls that overlap from their first instruction
+				ready.Add(1)
+				for spin := 0; int(ready.Load()) < n && spin < 200000; spin++ {
+					if spin%64 == 63 {
+						runtime.Gosched()
+					}
+				}
 				if i%2 == 1 && len(decs) > 0 {
 					decs[i%len(decs)].Close()
 				}
